@@ -29,7 +29,16 @@ def main():
         meta = json.load(open(os.path.join(d, "meta.json")))
         props = meta["property"] if isinstance(meta["property"], list) else [meta["property"]]
         also = meta.get("also_run", [])
-        r = sh(["git", "-C", REPO, "apply", os.path.join(d, "patch.diff")])
+        patch = os.path.join(d, "patch.rebased.diff") if os.path.exists(os.path.join(d, "patch.rebased.diff")) \
+            else os.path.join(d, "patch.diff")
+        r = sh(["git", "-C", REPO, "apply", patch])
+        if r.returncode != 0:       # the tree moved on (fix commits): try a 3-way merge of the patch
+            r = sh(["git", "-C", REPO, "apply", "--3way", patch])
+            if r.returncode != 0 or "with conflicts" in r.stdout:
+                sh(["git", "-C", REPO, "reset", "-q", "--hard", "HEAD"])
+                r.returncode = 1
+            else:
+                sh(["git", "-C", REPO, "reset", "-q"])      # keep the change in the working tree only
         if r.returncode != 0:
             print(sid, "patch does not apply:", r.stdout[-500:]); results[sid] = {"error": "patch does not apply"}; continue
         out = {}
